@@ -29,9 +29,11 @@ type Case struct {
 type Target interface {
 	// Generate produces the cases of one run. All randomness comes from rng.
 	Generate(rng *rand.Rand, tier string) []Case
-	// Exec runs the ops on the real code, from a fresh state, and returns exactly one
-	// canonical output line per op. It must not panic (recover inside).
-	Exec(ops []string) []string
+	// Exec runs the ops on the real code, from a fresh state, and stores exactly one canonical
+	// output line per op into outs (pre-allocated, len(ops)), in order, as it goes. It must not
+	// panic (recover inside). If it hangs, the framework reports "hang" for the first op
+	// without output.
+	Exec(ops []string, outs []string)
 	// Oracle checks the property itself on the implementation's outputs, independently of the
 	// model; it returns "" when the property holds on this case and a description otherwise.
 	Oracle(ops []string, impl []string, model []string) string
@@ -157,9 +159,43 @@ func outClass(s string) string {
 	return h
 }
 
+// ExecTimeout runs t.Exec with a deadline; an implementation that blocks (deadlock) yields
+// "hang" at the op that did not return and "skipped" after it.
+func ExecTimeout(t Target, ops []string) []string {
+	d := 30 * time.Second
+	if x, ok := t.(interface{ Timeout() time.Duration }); ok {
+		d = x.Timeout()
+	}
+	outs := make([]string, len(ops))
+	done := make(chan struct{})
+	go func() {
+		defer close(done)
+		t.Exec(ops, outs)
+	}()
+	select {
+	case <-done:
+		return outs
+	case <-time.After(d):
+		res := make([]string, len(ops))
+		hung := false
+		for i := range outs {
+			switch {
+			case hung:
+				res[i] = "skipped"
+			case outs[i] == "":
+				res[i] = "hang"
+				hung = true
+			default:
+				res[i] = outs[i]
+			}
+		}
+		return res
+	}
+}
+
 // fails reports whether the candidate op list still shows a problem, and which.
 func fails(t Target, d *Driver, ops []string) (bool, string, []string, []string, int, string) {
-	impl := t.Exec(ops)
+	impl := ExecTimeout(t, ops)
 	model, err := d.Run(ops)
 	if err != nil {
 		return true, "correspondence", impl, []string{"driver-error: " + err.Error()}, 0, ""
